@@ -116,11 +116,25 @@ def rand_segments(rng, nmax=6):
                 kinds.append('frame')
             else:
                 # corrupt anywhere but sync pair and length field; keep the checksum mismatching
-                where = rng.choice(['cls', 'id', 'payload', 'cka', 'ckb'])
+                where = rng.choice(['cls', 'id', 'payload', 'cka', 'ckb', 'ckb=00', 'cka=00', 'ck-swapped', 'ckb=ff'])
                 if where == 'payload' and n == 0:
                     where = 'cka'
-                pos = {'cls': 2, 'id': 3, 'payload': 6 + (rng.randrange(n) if n else 0), 'cka': len(fr) - 2, 'ckb': len(fr) - 1}[where]
-                fr[pos] ^= 1 << rng.randrange(8)
+                if where in ('ckb=00', 'cka=00', 'ck-swapped', 'ckb=ff'):
+                    # one checksum byte right, the other replaced by a value that a sloppy comparison may accept
+                    a_, b_ = fr[-2], fr[-1]
+                    if where == 'ckb=00':
+                        fr[-1] = 0
+                    elif where == 'ckb=ff':
+                        fr[-1] = 0xFF
+                    elif where == 'cka=00':
+                        fr[-2] = 0
+                    else:
+                        fr[-2], fr[-1] = b_, a_
+                    if (fr[-2], fr[-1]) == (a_, b_):
+                        fr[-1] ^= 0x80
+                else:
+                    pos = {'cls': 2, 'id': 3, 'payload': 6 + (rng.randrange(n) if n else 0), 'cka': len(fr) - 2, 'ckb': len(fr) - 1}[where]
+                    fr[pos] ^= 1 << rng.randrange(8)
                 c2, i2, p2 = fr[2], fr[3], bytes(fr[6:-2])
                 if fletcher(bytes(fr[2:-2])) == (fr[-2], fr[-1]):
                     fr[-1] ^= 0xFF
@@ -140,6 +154,18 @@ def rand_segments(rng, nmax=6):
             out += g
             kinds.append('junk-' + jk)
             prev_junk = True
+    return segs, bytes(out), kinds
+
+
+def backlog_segments(rng, n):
+    """n small well-formed frames (and a few checksum-failed ones) back to back: a long undrained backlog"""
+    segs, out, kinds = [], bytearray(), []
+    for k in range(n):
+        c, i = rng.choice(CIDS)
+        p = rand_payload(rng, rng.choice([0, 1, 2, 4]))
+        segs.append(('F', c, i, p))
+        out += frame(c, i, p)
+        kinds.append('frame')
     return segs, bytes(out), kinds
 
 
